@@ -300,6 +300,20 @@ def exhaustive_shard(item: dict[str, Any]) -> Collector:
 # ----------------------------------------------------------------------------
 # Layer B: full stack
 # ----------------------------------------------------------------------------
+class FailingAt(AffineEvaluator):
+    """Every realization fails (NaN) for the rows that evaluate one designated pool point."""
+
+    def __init__(self, *args: Any, point: np.ndarray, mask: np.ndarray, **kwargs: Any) -> None:  # noqa: ANN401, D107
+        super().__init__(*args, **kwargs)
+        self.point, self.mask = point, mask
+
+    def __call__(self, variables: np.ndarray, context: Any) -> Any:  # noqa: ANN401
+        result = super().__call__(variables, context)
+        rows = np.all(np.abs(np.asarray(variables)[:, self.mask] - self.point[self.mask]) <= 1e-9, axis=1)  # noqa: PLR2004
+        result.objectives[rows, :] = np.nan
+        return result
+
+
 def stack_config(case: dict[str, Any]) -> dict[str, Any]:
     spec = METHOD_SPECS[case["method"]]
     cfg: dict[str, Any] = {
@@ -312,6 +326,8 @@ def stack_config(case: dict[str, Any]) -> dict[str, Any]:
     }
     if case["method"] == "cobyla":
         del cfg["variables"]["lower_bounds"], cfg["variables"]["upper_bounds"]
+    if case.get("fail_at") is not None:  # (a point where everything fails is a point with the value +inf for NaN-tolerant methods)
+        cfg["realizations"]["realization_min_success"] = 0
     if case.get("tolerance") is not None:  # the convergence tolerance of the algorithm says nothing about which points are the same
         cfg["optimizer"]["tolerance"] = case["tolerance"]
     if case["cons"] in ("nl", "both"):
@@ -329,6 +345,9 @@ def run_stack(case: dict[str, Any], sequence: list[Any]) -> tuple[list[Any], Aff
     a = np.array(case["slopes"], dtype=np.float64).reshape(r_n, 1 + n_con, 3)
     b = np.array(case["offsets"], dtype=np.float64).reshape(r_n, 1 + n_con)
     ev = AffineEvaluator(a[:, :1], b[:, :1], a[:, 1:] if n_con else None, b[:, 1:] if n_con else None, quad=0.3)
+    if case.get("fail_at") is not None:
+        ev = FailingAt(a[:, :1], b[:, :1], a[:, 1:] if n_con else None, b[:, 1:] if n_con else None, quad=0.3, point=POOL[case["fail_at"]],
+                       mask=np.ones(3, dtype=bool) if case["mask"] is None else np.array(case["mask"], dtype=bool))
     manager = PluginManager()
     design = np.array([[[1.0, 0.0, 0.0], [0.0, 1.0, 0.0], [0.0, 0.0, 1.0]]] * r_n)
     manager.add_plugin("sampler", "design", DesignSamplerPlugin([design]))
@@ -396,16 +415,18 @@ def run_stack_case(case: dict[str, Any]) -> dict[str, Any]:  # noqa: C901, PLR09
                 mgr.add_plugin("sampler", "design", DesignSamplerPlugin([np.array([[[1.0, 0, 0], [0, 1.0, 0], [0, 0, 1.0]]] * r_n)]))
                 res = EnsembleEvaluator(cfg, None, ev2, mgr).calculate(full(j), compute_functions=True, compute_gradients=kind == "g")
                 if kind == "f":
-                    exp.append(float(res[0].functions.weighted_objective))
+                    failing = case.get("fail_at") is not None and bool(np.array_equal(full(j)[mask], full(case["fail_at"])[mask]))
+                    exp.append(float("inf") if failing else float(res[0].functions.weighted_objective))
                 else:
                     exp.append(np.asarray(res[1].gradients.weighted_objective)[mask])
             expv = np.array(exp) if case["method"] == "de-vec" else np.asarray(exp[0])
-            check(np.shape(val) == np.shape(expv) and bool(np.allclose(val, expv, rtol=1e-10, atol=1e-12)),
+            check(np.shape(val) == np.shape(expv) and bool(np.allclose(val, expv, rtol=1e-10, atol=1e-12) and np.array_equal(np.isinf(val), np.isinf(expv))),
                   "stale-objective" if kind == "f" else "stale-gradient",
                   f"{label}: returned {val.tolist()}, the ensemble value at that point is {expv.tolist()}", case)
         else:
             fresh, _, _, _ = run_stack(case, [(req_i, pts)])
-            check(np.shape(val) == np.shape(fresh[0][2]) and bool(np.allclose(val, fresh[0][2], rtol=1e-10, atol=1e-12)),
+            check(np.shape(val) == np.shape(fresh[0][2]) and bool(np.allclose(val, fresh[0][2], rtol=1e-10, atol=1e-12, equal_nan=False)
+                                                                   and np.array_equal(np.isinf(val), np.isinf(fresh[0][2]))),
                   "stale-constraint" if kind == "c" else "stale-jacobian",
                   f"{label}: returned {val.tolist()}, a fresh run asked at that point returns {fresh[0][2].tolist()}", case)
         if not same_point(pts, cur) and not (cur is not None and all(np.array_equal(full(a_), full(b_)) for a_, b_ in zip(pts, cur)) and len(pts) == len(cur)):
@@ -450,6 +471,7 @@ def hypothesis_shard(item: dict[str, Any]) -> Collector:
         return {"layer": "B", "method": mname, "cons": cons, "split": draw(st.booleans()), "speculative": draw(st.booleans()),
                 "weights": [draw(st.sampled_from([1.0, 2.0])) for _ in range(r_n)], "mask": mask, "start": draw(st.booleans()), "qualified": draw(st.booleans()),
                 "tolerance": draw(st.sampled_from([None, None, 1e-6, 0.05])),
+                "fail_at": 1 if mname in ("de", "de-vec") and draw(st.booleans()) else None,
                 "slopes": [draw(st.sampled_from([-1.0, 0.5, 1.0, 2.0])) for _ in range(r_n * (1 + n_con) * 3)],
                 "offsets": [draw(st.sampled_from([-0.5, 0.0, 1.0])) for _ in range(r_n * (1 + n_con))], "sequence": seq}
 
@@ -459,7 +481,8 @@ def hypothesis_shard(item: dict[str, Any]) -> Collector:
             "layer-B", f"method={case['method']}", f"cons={case['cons']}", "split" if case["split"] else "combined",
             "speculative" if case["speculative"] else "plain", "masked" if case["mask"] else "unmasked",
             "start=argument" if case.get("start") else "start=config", f"tolerance={case.get('tolerance')}",
-            "close-points" if any(3 in p_ for _, p_ in case["sequence"]) else "far-points"))
+            "close-points" if any(3 in p_ for _, p_ in case["sequence"]) else "far-points",
+            "all-realizations-fail-at-one-point" if case.get("fail_at") is not None else "no-failures"))
 
     run_hypothesis(col, cases(), body, seed=item["seed"], max_examples=item["examples"])
     return col
